@@ -92,6 +92,9 @@ class Translator:
                 return zlit(cx.consts[e.id]), INT
             raise Unsupported(f'unknown name {e.id}')
         if isinstance(e, ast.Attribute):
+            av = getattr(cx, 'attr_vars', {})
+            if ast.unparse(e) in av:
+                return av[ast.unparse(e)]
             if isinstance(e.value, ast.Name) and e.value.id == 'self' and e.attr in cx.selfattrs:
                 return 'self_' + e.attr.lstrip('_'), cx.selfattrs[e.attr]
             raise Unsupported(f'attribute {ast.unparse(e)}')
@@ -403,6 +406,7 @@ class Translator:
         c.written = cx.written
         c.rettype = getattr(cx, 'rettype', None)
         c.retseen = cx.retseen
+        c.attr_vars = getattr(cx, 'attr_vars', {})
         c.cut_at_with = getattr(cx, 'cut_at_with', False)
         c.early = getattr(cx, 'early', None)
         return c
@@ -451,6 +455,7 @@ class Translator:
         cx.written = list(spec.get('writes', []))
         cx.rettype = spec.get('ret')
         cx.retseen = []
+        cx.attr_vars = {k: (v, dict(declared)[v]) for k, v in spec.get('rename', {}).items()}
         cx.cut_at_with = spec.get('cut_at_with', False)
         cx.early = spec.get('early_return')
         params = []
@@ -483,7 +488,7 @@ class Translator:
             found = []
             for n in ast.walk(node):
                 if isinstance(n, ast.Assign) and len(n.targets) == 1 and isinstance(n.targets[0], ast.Name) \
-                        and n.targets[0].id == target:
+                        and n.targets[0].id == target and not (isinstance(n.value, ast.Constant) and n.value.value is None):
                     found.append(n.value)
             if len(found) != 1:
                 raise Unsupported(f'{spec["py"]}: {len(found)} assignments to {target}')
@@ -529,12 +534,14 @@ From Pyctr Require Import Base.Prelude Base.ListExt Base.PyInt Base.PySlice Base
 '''
 
 
-def translate_module(src_path, specs, pyctr_errs=None):
+def translate_module(src_path, specs, pyctr_errs=None, imports=(), extfuncs=None):
     """specs in dependency order; returns Coq text"""
     with open(src_path, encoding='utf-8') as f:
         source = f.read()
-    tr = Translator(source, pyctr_errs=pyctr_errs)
+    tr = Translator(source, funcs=extfuncs, pyctr_errs=pyctr_errs)
     out = [HEADER.format(src=src_path)]
+    if imports:
+        out.append('From Dyn Require Import ' + ' '.join('Gen_' + m for m in imports) + '.\n')
     for spec in specs:
         text = tr.kernel(spec)
         out.append(text)
